@@ -1,6 +1,7 @@
 import Driver.Util
 import Driver.MuxD
 import Driver.CodecD
+import Driver.HsD
 /-!
 # `limedriver` — line protocol in front of the executable model
 
@@ -17,6 +18,8 @@ def dispatch (j : Json) : R Json := do
   | "dec" => CodecD.handleDec j
   | "text" => CodecD.handleText j
   | "wf" => CodecD.handleWf j
+  | "srvhs" => HsD.handleSrv j
+  | "srvjudge" => HsD.handleJudge j
   | "build" => CodecD.handleBuild j
   | "ping" => pure (Json.mkObj [("pong", .bool true)])
   | _ => throw s!"unknown mode {m}"
